@@ -194,6 +194,10 @@ func Rebuild(t *sym.Term, args []*sym.Term) *sym.Term {
 // termOps are smart constructors for interpreted integer operators (constant folding).
 var termOps = map[string]func(s sym.Sort, args []*sym.Term) *sym.Term{}
 
+// RegisterTermOp installs the smart constructor of an interpreted operator, so that terms rebuilt after
+// substitution keep their normal form.
+func RegisterTermOp(op string, f func(s sym.Sort, args []*sym.Term) *sym.Term) { termOps[op] = f }
+
 // Resolve picks the branch of Choice values decided by the guard.
 func (s *State) Resolve(v Val) Val {
 	for {
